@@ -1,0 +1,23 @@
+//go:build verif
+
+package dastard
+
+// Verification hooks for the status-replay / configuration-persistence check (C16).
+// Accessors only: no logic of dastard is changed here.
+
+// VerifC16Send puts one update on clientMessageChan, as the RPC server and the data sources do.
+// It never blocks: it returns false when the channel is full.
+func VerifC16Send(tag string, state interface{}) bool {
+	select {
+	case clientMessageChan <- ClientUpdate{tag: tag, state: state}:
+		return true
+	default:
+		return false
+	}
+}
+
+// VerifC16Queued is the number of updates that RunClientUpdater has not yet taken from the channel.
+func VerifC16Queued() int { return len(clientMessageChan) }
+
+// VerifC16SaveState calls saveState on a map owned by the caller.
+func VerifC16SaveState(lastMessages map[string]interface{}) { saveState(lastMessages) }
